@@ -73,7 +73,7 @@ def specs(rng, tier, wid, nw, env):
                 for p in PRECS:
                     k += 1
                     if k % nw == wid: yield ('int', conv, list(fl), w, p, rng.getrandbits(48))
-    N = 1500 if q else 60000
+    N = 12000 if q else 200000
     for i in range(N):
         c = rng.random()
         if c < 0.2: yield ('snsize', rng.getrandbits(48))
